@@ -309,6 +309,38 @@ def run(ctx, replay_case):
                                    "replay": {"history": [(a_[0], a_[1], a_[2], a_[3].hex())] * 2, "shape": "A on the main thread, A on a second thread"}})
             break
     shapes["A on two threads (pairs)"] = nthr
+    # ... nor on the root path an EARLIER decode was given: A below a caller-supplied root, then A with default arguments (and the
+    # other way round) - the default decode must be the model's, the rooted one the same with the root in front (seed C12m: a memo
+    # of the message fields' paths keyed by the field name only)
+    nroot = 0
+    msgs_ = [c_ for c_ in wfm if c_.tname in ("Command", "Response")]
+    for a_ in rnd.sample(msgs_, min(len(msgs_), 6 if ctx.tier == "quick" else 40)):
+        want_ = core.run_model([core.op_line(a_.op("S", "DEC"))])[0]
+        for order in ("rooted-first", "default-first"):
+            seq_ = [".hist.m0", None] if order == "rooted-first" else [None, ".hist.m0"]
+            got_ = [canon.impl_dec("S", a_.tname, a_.cc, a_.enc, a_.data, root=r_) for r_ in seq_]
+            nroot += 2
+            bad = None
+            for r_, g_ in zip(seq_, got_):
+                g2_ = [core.strip_root(l_, r_) for l_ in g_] if r_ else g_
+                off_root = [l_ for l_ in g_ if r_ and l_.startswith("M ") and not l_.split(" ")[2].startswith(r_)]
+                if off_root:
+                    bad = f"the decode below the root {r_} shows an event outside that root ('{off_root[0][:120]}')"
+                    break
+                if g2_ != want_:
+                    d_ = next((i for i, (x_, y_) in enumerate(zip(g2_, want_)) if x_ != y_), min(len(g2_), len(want_)))
+                    bad = (f"the decode {'below the root ' + r_ if r_ else 'with default arguments'} is not the model's "
+                           f"('{(g_[d_] if d_ < len(g_) else 'end')[:120]}' vs '{(want_[d_] if d_ < len(want_) else 'end')[:120]}')")
+                    break
+            if bad:
+                failures += 1
+                ctx.violations.append({"kind": "concrete", "signature": "history:root-path",
+                                       "what": f"history A below a caller-supplied root / A with default arguments ({order}): {bad}",
+                                       "replay": {"history": [(a_.tname, a_.cc, a_.enc, a_.data.hex(), "S")] * 2, "root_paths": seq_, "shape": order}})
+                break
+        if bad:
+            break
+    shapes["A rooted / A default (decodes)"] = nroot
     for h in range(nh):
         kind = rnd.choice(["ABA", "ABA", "ABCA", "ABAB", "AxA", "interleaved2", "interleaved3", "stream",
                            "A,failed,A", "A,failed,A", "A,abandoned,A", "S,failed,S"])
